@@ -3,7 +3,7 @@
    O : oracles  = the text layers (csv, str/int/float/complex, isidentifier, namedtuple);
    y : yres     = PyYAML's loading of the header that save wrote (data, not modelled). *)
 From Coq Require Import String List ZArith Bool.
-From PV Require Import Model_scsv Proofs_scsv.
+From PV Require Import Model_scsv Proofs_scsv Model_scsv_frame Proofs_scsv_frame.
 Import ListNotations.
 Open Scope string_scope.
 
@@ -152,3 +152,87 @@ Example C16_nonvacuous :
     Ok [["name"; "count"; "value"; "flag"]; ["B, b"; "5"; "1.5"; "True"]; ["-"; "-"; "-"; "False"]] /\
   read_back toyO ex_schema (YLoaded ex_schema) ex_data = Ok (["name"; "count"; "value"; "flag"], ex_data).
 Proof. exact nonvacuous_proof. Qed.
+
+(* ---------------------------------------------------------------- the line level of the file
+   frame = the loop of read_scsv that sorts the lines of the file into YAML header lines and csv
+   lines (exact comparisons with "\n" and "---\n"); written_file hdr body = what save_scsv writes. *)
+
+(* the file save_scsv writes is split into exactly its header lines and its csv lines, whatever
+   they contain, as long as none of them is exactly "\n" or "---\n": a row of empty cells in a
+   tab-delimited file ("\t\n"), a line that merely strips to "---" are csv lines *)
+Theorem C16_frame_written_file : forall hdr body,
+  Forall (fun l => line_kept l = true) hdr -> Forall (fun l => line_kept l = true) body ->
+  frame false (written_file hdr body) = (hdr, body).
+Proof. exact frame_written_file. Qed.
+
+(* for any file and either start state: a line reaches the header lines or the csv lines iff it
+   is not exactly "\n" / "---\n"; nothing else is dropped, nothing is duplicated *)
+Theorem C16_frame_drops_only_blank_and_fence : forall lines is_yaml,
+  (forall l, In l (fst (frame is_yaml lines)) \/ In l (snd (frame is_yaml lines))
+             <-> In l lines /\ l <> blank_line /\ l <> fence_line) /\
+  length (fst (frame is_yaml lines)) + length (snd (frame is_yaml lines)) = length (filter line_kept lines).
+Proof. exact frame_drops_only_blank_and_fence. Qed.
+
+(* without a fence line the loop is a filter into the side selected by the state *)
+Theorem C16_frame_without_fence_is_filter : forall lines is_yaml,
+  Forall (fun l => l <> fence_line) lines ->
+  frame is_yaml lines = if is_yaml then (filter line_kept lines, []) else ([], filter line_kept lines).
+Proof. exact frame_no_fence. Qed.
+
+(* the only state carried from one line to the next is the is_yaml flag, flipped by "---\n" lines *)
+Theorem C16_frame_state_is_the_only_carry : forall l1 is_yaml l2,
+  frame is_yaml (l1 ++ l2)%list =
+  ((fst (frame is_yaml l1) ++ fst (frame (frame_state is_yaml l1) l2))%list,
+   (snd (frame is_yaml l1) ++ snd (frame (frame_state is_yaml l1) l2))%list).
+Proof. exact frame_app. Qed.
+
+(* C16_roundtrip with the transport oracle decomposed into csv.writer (W), the modelled loop and
+   csv.reader (R).  What is asked of W and R concerns only the rows save writes for this data set:
+   no written line is exactly "\n" or "---\n", and R inverts W on them (both checked on the real
+   csv module and the real file on every generated case) *)
+Theorem C16_roundtrip_through_file : forall O W R hdr s y data d,
+  (forall d, csv_legal d = true -> o_delim_err O d = None) ->
+  (forall d rows, o_transport O d rows = transport_via_file W R hdr d rows) ->
+  sdelim s = Some d ->
+  Forall (fun l => line_kept l = true) hdr ->
+  (forall rows, save O s data = Ok rows -> Forall row_transportable rows ->
+                Forall (fun l => line_kept l = true) (W d rows) /\ R d (W d rows) = Ok rows) ->
+  validate_schema O s = Ok true -> representable O s data = true -> header_faithful O s y = true ->
+  read_back O s y data = Ok (names s, data).
+Proof. exact roundtrip_through_file. Qed.
+
+(* its hypotheses are satisfiable on the case the line level matters for: tab delimiter, missing
+   marker '', a row made of fill values only, written as the line "\t\n" *)
+Example C16_through_file_nonvacuous :
+  (forall d, csv_legal d = true -> o_delim_err toyF d = None) /\
+  (forall d rows, o_transport toyF d rows = transport_via_file toy_writer toy_reader toy_hdr d rows) /\
+  sdelim tab_schema = Some TAB /\ Forall kept toy_hdr /\
+  save toyF tab_schema tab_data = Ok tab_rows /\
+  toy_writer TAB tab_rows = ["a" ++ TAB ++ "b" ++ LF; "1.5" ++ TAB ++ LF; TAB ++ LF; "1.5" ++ TAB ++ "1.5" ++ LF] /\
+  Forall row_transportable tab_rows /\
+  Forall kept (toy_writer TAB tab_rows) /\ toy_reader TAB (toy_writer TAB tab_rows) = Ok tab_rows /\
+  validate_schema toyF tab_schema = Ok true /\ representable toyF tab_schema tab_data = true /\
+  header_faithful toyF tab_schema (YLoaded tab_schema) = true /\
+  read_back toyF tab_schema (YLoaded tab_schema) tab_data = Ok (["a"; "b"], tab_data).
+Proof. exact through_file_nonvacuous. Qed.
+
+(* white-space-only lines, "---<tab>", "---" without terminator are csv lines; "\n" is skipped; a
+   real fence in the body sends the remaining lines to the header *)
+Example C16_frame_examples :
+  frame false (written_file toy_hdr [TAB ++ LF; "---" ++ TAB ++ LF; " " ++ LF; "---"])
+  = (toy_hdr, [TAB ++ LF; "---" ++ TAB ++ LF; " " ++ LF; "---"]) /\
+  frame false (written_file toy_hdr ["a" ++ LF; LF; "1" ++ LF; LF])
+  = (toy_hdr, ["a" ++ LF; "1" ++ LF]) /\
+  frame false (written_file toy_hdr ["a" ++ LF; fence_line; "1" ++ LF])
+  = ((toy_hdr ++ [("1" ++ LF)%string])%list, ["a" ++ LF]).
+Proof. exact frame_examples. Qed.
+
+(* open finding in the model: the global transport hypothesis of C16_roundtrip (`oracle_ok`) is
+   not met by a faithful csv layer at the delimiter '-': a row of four empty cells is transportable,
+   reader and writer are inverse on it, but its line is "---\n" and the loop takes it for a fence *)
+Theorem C16_dash_delimiter_fence_refuted :
+  csv_legal "-" = true /\ Forall row_transportable dash_rows /\
+  toy_reader "-" (toy_writer "-" dash_rows) = Ok dash_rows /\
+  toy_writer "-" dash_rows = ["a-b-c-d" ++ LF; fence_line; "1-2-3-4" ++ LF] /\
+  transport_via_file toy_writer toy_reader toy_hdr "-" dash_rows = Ok [["a"; "b"; "c"; "d"]].
+Proof. exact dash_fence_witness. Qed.
